@@ -9,6 +9,7 @@ import (
 	"github.com/hashicorp/nodeenrollment"
 	"github.com/hashicorp/nodeenrollment/types"
 	"github.com/hashicorp/nodeenrollment/zzverif/vf"
+	"github.com/hashicorp/nodeenrollment/zzverif/vfs"
 )
 
 func init() { VfHarnesses["VerifC06SingleUse"] = VerifC06SingleUse }
@@ -18,16 +19,16 @@ func init() { VfHarnesses["VerifC06SingleUse"] = VerifC06SingleUse }
 // CreateFetchNodeCredentialsRequest) is the library's own code as well.
 func VerifC06SingleUse() {
 	ctx := context.Background()
-	st := &vfStorage{}
+	st := &vfs.Storage{}
 	t0 := vf.Now()
-	vfStoreRoots(ctx, st, t0)
+	vfs.StoreRoots(ctx, st, t0)
 	_, token, err := CreateServerLedActivationToken(ctx, st, &types.ServerLedRegistrationRequest{})
 	vf.Assert("token-created", err == nil)
 	created := vf.ClockReading(1)
 	maxLife := vf.Dur("max-lifetime", -1000000000000000, 1000000000000000)
 
 	fetch := func() bool {
-		nodeSt := &vfStorage{}
+		nodeSt := &vfs.Storage{}
 		creds, err := types.NewNodeCredentials(ctx, nodeSt, nodeenrollment.WithActivationToken(token))
 		if err != nil {
 			panic(err)
@@ -41,7 +42,7 @@ func VerifC06SingleUse() {
 	}
 	first := fetch()
 	usedAt := vf.Now()
-	recordsAfterFirst := st.count(1)
+	recordsAfterFirst := st.Count(vfs.KindNode)
 	second := fetch()
 	vf.Assume(vf.TimeLE(vf.Now(), t0.Add(time.Second)))
 	if first {
@@ -53,6 +54,6 @@ func VerifC06SingleUse() {
 		vf.Assert("refused-use-creates-no-record", recordsAfterFirst == 0)
 	}
 	vf.Assert("second-use-never-enrolls", !second)
-	vf.Assert("second-use-creates-no-record", st.count(1) == recordsAfterFirst)
-	vf.Assert("token-record-gone-after-use", vf.Implies(first, st.count(4) == 0))
+	vf.Assert("second-use-creates-no-record", st.Count(vfs.KindNode) == recordsAfterFirst)
+	vf.Assert("token-record-gone-after-use", vf.Implies(first, st.Count(vfs.KindToken) == 0))
 }
